@@ -1150,6 +1150,12 @@ func (r *realm) testamentAdd(msg *wamp.Invocation) wamp.Message {
 	if !ok {
 		options = wamp.Dict{}
 	}
+	// The testament is published by the router's meta session, which does not
+	// announce payload passthru mode. Publishing with that option is a protocol
+	// violation that would end the meta session.
+	if pptScheme, _ := options[wamp.OptPPTScheme].(string); pptScheme != "" {
+		return makeError(msg.Request, wamp.ErrInvalidArgument)
+	}
 	scope, ok := wamp.AsString(msg.ArgumentsKw["scope"])
 	if !ok || scope == "" {
 		scope = destroyedScope
